@@ -2,7 +2,7 @@
 import ast
 import os
 
-from ..cfg import cfg_of, N, X
+from ..cfg import cfg_of, N, X, ExcHierarchy
 from ..errors import AnalysisError
 from .. import q, kit
 from . import common
@@ -77,7 +77,9 @@ def run(R):
         starts = []
         for g in kit.guard_edges_exist(cfg, is_callable):
             starts += [e.dst for e in cfg.out_edges(g.id, N) if e.label == is_callable(g)]
-        p = cfg.find_path(starts, [cfg.exit], N, cut_nodes=[node]) if starts else "no callable() test"
+        # (the handler that undoes a failed activation is not a way of activating the patch)
+        undo = [x for x in cfg.nodes if x.kind == "except" and any(q.call_name(c_) == "self.__exit__" for c_ in q.calls(x.ast))]
+        p = cfg.find_path(starts, [cfg.exit], N, cut_nodes=[node] + undo) if starts else "no callable() test"
         R.check(p is None, "C19.ATTACH", en.qualname + ":" + name + ":always", site, ".%s is attached on every path for a callable replacement" % name,
                 ".%s can be missing on a callable replacement" % name)
         # built from this activation's replacement
@@ -121,6 +123,29 @@ def run(R):
             "AttributeError after the replacement has been installed - __exit__ is not called for a failed __enter__, and the original is never put back"
             if pw is not None else "the wrapper made for a new_callable replacement is not installed in place of it (setattr(self.target, self.attribute, ...))",
             cfg.fmt_path(pw) if pw else None)
+    # what __enter__ does after the standard library has installed the replacement can fail (a spec_set mock refuses attributes it
+    # does not know; a replacement may refuse all): __exit__ is not called for a failed __enter__, so the failure itself must undo
+    # the patch - every statement between super().__enter__() and the return sits in a try whose handler calls self.__exit__(...)
+    hier_e = ExcHierarchy(repo)
+    post = [n for n in cfg.nodes if n.kind == "stmt" and n.ast is not mv[0][1] and not isinstance(n.ast, (ast.Return, ast.Pass))
+            and cfg.find_path(src_nodes, [n], N, include_source_check=False) is not None
+            and any(isinstance(x, (ast.Call, ast.Attribute)) for e_ in kit.node_exprs(n) for x in ast.walk(e_))]
+    uncovered = []
+    for n in post:
+        cov = False
+        for t in kit.enclosing_try_handlers(n.ast):
+            for h in t.handlers:
+                if (h.type is None or kit.handler_covers(h, "BaseException", hier_e)) and any(q.call_name(c) == "self.__exit__" for c in q.calls(h)):
+                    cov = True
+        if any(isinstance(a_, ast.ExceptHandler) for a_ in q.ancestors(n.ast)):
+            cov = True      # (the undoing handler itself)
+        if not cov:
+            uncovered.append(n)
+    R.check(not uncovered and bool(post), "C19.RESTORE", en.qualname + ":failed-activation", R.site(en, uncovered[0].ast if uncovered else None),
+            "a failure after the replacement was installed undoes the patch (self.__exit__ in a handler for BaseException) before it propagates",
+            "`%s` runs after the replacement has been installed and outside any handler that undoes the patch: when it raises (a spec_set mock refusing an "
+            "attribute, a replacement that takes none) the with-statement does not call __exit__, start() does not register the patcher - the original is "
+            "never put back" % (q.src(uncovered[0].ast)[:50] if uncovered else ""))
     # wrappers forward and wrap
     for cname, wrap in (("_AsynqWrapper", "ConstFuture"), ("_AsyncioWrapper", None)):
         c = repo.cls("mock_." + cname)
